@@ -308,6 +308,23 @@ Check C19_widths_are_crate_constants :
   (forall d, wf c_debt d -> N.of_nat (length (enc c_debt d)) = G_SOLANA_VALIDATOR_DEBT_LEN).
 Print Assumptions C19_widths_are_crate_constants.
 
+(* ================================================================ the executable checks run on the harness's cases *)
+(* the value comparison used by corr_C19 / mon_C19 is exact *)
+Theorem C19_value_comparison_exact : forall a b, ixv_eqb a b = true <-> a = b.
+Proof. exact ixv_eqb_eq. Qed.
+Check C19_value_comparison_exact : forall a b, ixv_eqb a b = true <-> a = b.
+Print Assumptions C19_value_comparison_exact.
+(* the monitor is an executable reading of the theorems: it accepts every case the model itself would produce, for every
+   well-formed value, every foreign or own program id and every list of edits (truncate, append, flip, unrelated string) *)
+Theorem C19_monitor_accepts_model : forall v pid es, wf_v v -> mon_C19 (model_case v pid es) = None.
+Proof. exact mon_accepts_model. Qed.
+Check C19_monitor_accepts_model : forall v pid es, wf_v v -> mon_C19 (model_case v pid es) = None.
+Print Assumptions C19_monitor_accepts_model.
+Theorem C19_correspondence_accepts_model : forall v pid es, corr_C19 (model_case v pid es) = None.
+Proof. exact corr_accepts_model. Qed.
+Check C19_correspondence_accepts_model : forall v pid es, corr_C19 (model_case v pid es) = None.
+Print Assumptions C19_correspondence_accepts_model.
+
 (* ================================================================ the hypotheses above are satisfiable *)
 Example C19_hypotheses_nonvacuous :
   wf_rd (RdPaySolanaValidatorDebt 5 proof1) /\ wf_rd_pcfg (RpCommunityBurnRateParameters 1000000000 1 2 (Some 3)) /\
